@@ -130,21 +130,22 @@ Definition print_int64 := print_signed u64 print_uint64.
 
 Definition is_digit (c : Z) : bool := (48 <=? c) && (c <=? 57).
 
-(* the wrap test applied after  x0 = x; x = x * 10 + d  (uint64_t):
-   [ovf_current]: the test in the pinned sources, `x0 > x`;
-   [ovf_fixed]  : `x0 > UINT64_MAX / 10 || x0 > x` (fixes/C19-*.patch), exact. *)
-Definition ovf_current (x0 x : Z) : bool := x0 >? x.
-Definition ovf_fixed (x0 x : Z) : bool := (x0 >? U64_MAX / 10) || (x0 >? x).
+(* the overflow test of the accumulation loop, as a function of the value so far and the next digit:
+   [ovf_current]: the pinned sources,  x0 = x; x = x * 10 + d; if (x0 > x) error      (compares after the wrap)
+   [ovf_fixed]  : fixes/C19-json-integer-wrap.patch and fixes/C08-pparseint-decimal-wrap.patch,
+                  if (x > (UINT64_MAX - d) / 10) error; x = x * 10 + d                (exact) *)
+Definition ovf_current (x d : Z) : bool := x >? u64 (x * 10 + d).
+Definition ovf_fixed (x d : Z) : bool := x >? (U64_MAX - d) / 10.
 
-(* while (buf != end && *buf >= '0' && *buf <= '9') { x0 = x; x = x * 10 + ( *buf - '0'); if (test) error; ++buf; }
+(* while (buf != end && *buf >= '0' && *buf <= '9') { d = *buf - '0'; if (test) error; x = x * 10 + d; ++buf; }
    None: the test fired; Some (x, digits consumed, rest of the text). *)
 Fixpoint acc_loop (test : Z -> Z -> bool) (l : list Z) (x : Z) (nd : Z) : option (Z * Z * list Z) :=
   match l with
   | [] => Some (x, nd, [])
   | c :: t =>
       if is_digit c then
-        let x1 := u64 (x * 10 + (c - 48)) in
-        if test x x1 then None else acc_loop test t x1 (nd + 1)
+        let d := c - 48 in
+        if test x d then None else acc_loop test t (u64 (x * 10 + d)) (nd + 1)
       else Some (x, nd, l)
   end.
 
